@@ -5,7 +5,7 @@
 (* observation `fin` written by the harness; the relations are evaluated here, by TLC.         *)
 (*   fin = [wf, execd : task -> count, errs : set-like seq, out, hasout, pubs, rest, ...]      *)
 (* A false relation prints <<"G", group id, clause>>.                                          *)
-EXTENDS Definition, Json, IOUtils
+EXTENDS RefGraph, Json, IOUtils
 
 Batch == JsonDeserialize(IOEnv.TRACE_FILE)
 
@@ -109,6 +109,8 @@ KF_C17_first_run_side_effects(G) ==
         \A b \in Members(G, "clean") : Fin(G, a).execd[t] > Cnt(Fin(G, b).execd, t)
 
 GroupSignatures(G) ==
+  (IF G.kind = "inspect" /\ G.expect.cat = "context" /\ G.expect.pos \in {"rwhen", "rcount", "rdelay"}
+   THEN {"KF_C15_retry_context_unchecked"} ELSE {}) \cup
   (IF G.kind = "order" /\ KF_C07_late_arrival_after_fire(G) THEN {"KF_C07_late_arrival_after_fire"} ELSE {}) \cup
   (IF G.kind = "pause" /\ KF_C07_late_arrival_pause(G) THEN {"KF_C07_late_arrival_after_fire"} ELSE {}) \cup
   (IF KF_C17_first_run_side_effects(G) THEN {"KF_C17_first_run_side_effects"} ELSE {}) \cup
@@ -122,6 +124,32 @@ C17_converge(G) ==
   \A a \in Members(G, "rerun") :
      \E b \in Members(G, "clean") : Fin(G, a).wf = Fin(G, b).wf /\ Fin(G, a).out = Fin(G, b).out
 
+(* C14: graphs observed from the real composer (one member per permutation of the declaration   *)
+(* order) against the reference graph of the definition                                         *)
+SeqSet(s) == {s[i] : i \in 1..Len(s)}
+C14_nodes(G) == \A m \in 1..Len(G.members) : {n.id : n \in SeqSet(Fin(G, m).nodes)} = RefNodes(G.def)
+C14_edges(G) == \A m \in 1..Len(G.members) :
+                  /\ SeqSet(Fin(G, m).edges) = RefEdges(G.def)
+                  /\ Len(Fin(G, m).edges) = Cardinality(RefEdges(G.def))
+C14_attrs(G) == \A m \in 1..Len(G.members) : \A n \in SeqSet(Fin(G, m).nodes) :
+                  /\ n.barrier = RefBarrier(G.def, n.id)
+                  /\ n.retry = RefRetry(G.def, n.id)
+C14_roots(G) == \A m \in 1..Len(G.members) : SeqSet(Fin(G, m).roots) = RefRoots(G.def)
+C14_order_independent(G) == \A a, b \in 1..Len(G.members) : Fin(G, a).digest = Fin(G, b).digest
+C14_roundtrip(G) == \A m \in 1..Len(G.members) :
+                      /\ Fin(G, m).digest = Fin(G, m).digest_rt
+                      /\ Fin(G, m).trans = Fin(G, m).trans_rt
+
+(* C15: a single-fault mutant must be reported in the expected category at the expected position *)
+C15_reported(G) ==
+  \A m \in 1..Len(G.members) :
+     \E i \in 1..Len(Fin(G, m).entries) :
+        LET e == Fin(G, m).entries[i] IN
+        /\ e.cat = G.expect.cat
+        /\ e.task = G.expect.task \/ G.expect.task = "none"
+        /\ e.pos = G.expect.pos
+        /\ e.ti = G.expect.ti \/ G.expect.ti = -1 \/ e.ti = -1
+
 Rel(G) ==
   LET FG(n, ok) == IF ok THEN {} ELSE {n} IN
   CASE G.kind = "pause" -> FG("C09_same_status", C09_same_status(G)) \cup FG("C09_same_success", C09_same_success(G))
@@ -130,6 +158,10 @@ Rel(G) ==
                            \cup FG("C08_published", C08_published(G)) \cup FG("C08_output", C08_output(G))
     [] G.kind = "persist" -> FG("C05_same_steps", C05_same_steps(G)) \cup FG("C05_same_final", C05_same_final(G))
                            \cup FG("C05_idempotent", C05_idempotent(G))
+    [] G.kind = "graph" -> FG("C14_nodes", C14_nodes(G)) \cup FG("C14_edges", C14_edges(G)) \cup FG("C14_attrs", C14_attrs(G))
+                           \cup FG("C14_roots", C14_roots(G)) \cup FG("C14_order_independent", C14_order_independent(G))
+                           \cup FG("C14_roundtrip", C14_roundtrip(G))
+    [] G.kind = "inspect" -> FG("C15_reported", C15_reported(G))
     [] G.kind = "rerun" -> FG("C17_converge", C17_converge(G))
     [] OTHER -> {"unknown_group_kind"}
 
